@@ -17,6 +17,7 @@ import concurrent.futures
 import importlib.util
 import os
 import re
+import shutil
 import time
 
 import vlib
@@ -33,7 +34,7 @@ TRUSTED_BASE = [
     "the five policy facts the main theorem C08_cache_fresh rests on are regex-scraped from ccompiler.lua (Gen.v) and checked behaviourally by replaying the three former defect histories (same-second in real time) on every run",
 ]
 ASSUMPTIONS = [
-    "the behaviour of a binary is a function of (generated C, compiler command, the world the C compiler reads: compiler + headers/extra C files); the main theorem C08_cache_fresh covers histories in which every world change shows in ccinfo (the property's own step kinds, discharged in ProofsEdits.v); since 304728c the heading hash covers the local headers the generated C includes that are found in the cincdir directories (world w -> w+10: visible, must be fresh); edits of headers reached only through --cflags -I (w -> w+100), of system headers and of `## cfile` extra C files remain invisible: modelled, refuted (C08_cache_fresh_refuted_header_edit) and replayed as the open known finding",
+    "the behaviour of a binary is a function of (generated C, compiler command, the world the C compiler reads: compiler + headers/extra C files); the main theorem C08_cache_fresh covers histories in which every world change shows in ccinfo (the property's own step kinds, discharged in ProofsEdits.v); since 304728c the heading hash covers the local headers the generated C includes that are found in the cincdir directories (world w -> w+10: visible, must be fresh); edits of headers reached only through --cflags -I (w -> w+100), of system headers and of `## cfile` extra C files remain invisible: modelled, refuted (C08_cache_fresh_all_world_edits_refuted) and replayed as the open known finding",
     "the hash written into the heading is injective on (code, ccinfo, command) (BLAKE2b collisions ignored)",
     "invocations sharing a cache directory are sequential and the clock is monotone; -o never names a file inside the cache directory",
     "a build killed while writing its output leaves an EMPTY file (Interrupt step; the --cc wrapper truncates the output): a truncated non-empty output with a fresh mtime would pass the size test",
@@ -44,7 +45,10 @@ ASSUMPTIONS = [
 THEOREM_CLASSES = {
     "C08_cache_fresh": "main",
     "C08_expected_is_nocache_run": "main",
-    "C08_source_and_option_edits_show_in_text": "main",
+    "C08_source_and_option_edits_show_in_text": "definitional",
+    "C08_cincdir_header_edits_fresh": "main",
+    "C08_header_hash_needed": "refutation",
+    "C08_cache_fresh_all_world_edits_refuted": "refutation",
     "C08_cflags_and_release_change_command": "corollary",
     "C08_cache_fresh_general_policy": "corollary",
     "C08_sufficient_policy": "corollary",
@@ -54,17 +58,16 @@ THEOREM_CLASSES = {
     "C08_hash_in_heading_needed": "refutation",
     "C08_size_test_needed": "refutation",
     "C08_header_edit_leaves_text": "refutation",
-    "C08_cache_fresh_refuted_header_edit": "refutation",
 }
 UNPROVED = [
     "that compile_code/compile_binary are the machine of coq/C08/Model.v: tied by replaying histories on the real compiler and by a structural scrape of the two conditions, not proved",
-    "edits of what the C compiler reads that the heading hash does not cover: headers reached only through --cflags -I, system headers, `## cfile` extra C files (headers found in cincdir directories ARE covered since 304728c); outside the property's step kinds; modelled, refuted (C08_cache_fresh_refuted_header_edit) and replayed as the open known finding",
+    "edits of what the C compiler reads that the heading hash does not cover: headers reached only through --cflags -I, system headers, `## cfile` extra C files (headers found in cincdir directories ARE covered since 304728c); outside the property's step kinds; modelled, refuted (C08_cache_fresh_all_world_edits_refuted) and replayed as the open known finding",
     "a build killed while writing leaves an EMPTY file (what Interrupt models and the --cc wrapper does); a killed linker that leaves a truncated non-empty file with a fresh mtime would be served: not modelled, not tested",
-    "file-name aliasing between slots (a source named a.c.nelua uses <cache>/a.c both as C file and as binary: the real compiler stops with 'input file is the same as output file'), output modes with another extension (--object/--static-lib/--shared-lib/--assembly share the slot's C file; their mode sequences are compared in C07's differential, not here), -o inside the cache directory, concurrent invocations, non-monotone clocks",
+    "file-name aliasing between slots (a source named a.c.nelua uses <cache>/a.c both as C file and as binary: the real compiler stops with 'input file is the same as output file'; probed on every run: it must fail or print its own output), output modes with another extension (--object/--static-lib/--shared-lib/--assembly share the slot's C file; their mode sequences are compared in C07's differential, not here), -o inside the cache directory, concurrent invocations, non-monotone clocks",
     "the generated C of a required module / -D / -P edit is the front end's business: the model only uses that the binary is a function of (C file, command, world)",
 ]
 MANIFEST_ENTRY = {
-    "text": "proof: for the policy scraped from compile_binary/compile_code, every history over the property's step kinds (source, required-module, -D/-P/--cflags/--release edits, source and compiler switches, -o, --no-cache, --code, interrupted builds), at any spacing, runs a binary built from the current text, and 'expected' is the model's own --no-cache run in an empty directory (C08_cache_fresh, C08_expected_is_nocache_run, C08_source_and_option_edits_show_in_text); model = code is tied by real-time history replay; documented limit, refuted and keyed as the open known finding: an edit of a header reached only through --cflags -I (or of a `## cfile` extra C file) alone; cincdir headers are hashed since 304728c",
+    "text": "proof, partial (one open finding): for the policy scraped from compile_binary/compile_code, every history over the property's step kinds (source, required-module, -D/-P/--cflags/--release edits, source and compiler switches, -o, --no-cache, --code, interrupted builds), at any spacing, runs a binary built from the current text, and 'expected' is the model's own --no-cache run in an empty directory (C08_cache_fresh, C08_expected_is_nocache_run, C08_source_and_option_edits_show_in_text); model = code is tied by real-time history replay; documented limit, refuted and keyed as the open known finding: an edit of a header reached only through --cflags -I (or of a `## cfile` extra C file) alone; cincdir headers are hashed since 304728c",
     "note": "trusted: coqc, regex scrape of the two conditions of compile_binary (comments stripped, conjunct lists) and of the heading/hash in compile_code, lfs whole-second mtimes, the replayer (harness/C08/replay.py: real compiler, os.utime ageing, --cc wrapper), gcc/clang; assumes an injective heading hash, sequential invocations, a killed build leaving an empty file, distinct slot file names",
     "technique": "Coq state machine over a cache directory with an inductive invariant, parametric in a scraped policy + replay of generated/corpus/witness histories on the real compiler with the model run on observed write times",
 }
@@ -556,6 +559,26 @@ def correspond(ctx):
                              "witness %s (the model predicts a fresh run)" % name)
     cov["witnesses"] = wit
 
+    # 1b. slot file-name aliasing (declared outside the model): a source called <slot>.c.nelua uses <cache>/<slot>.c
+    # both as C file and as output; it must never serve another program's artefact (today: gcc refuses)
+    adir = os.path.join(ctx.work, "alias-%d" % os.getpid())
+    shutil.rmtree(adir, ignore_errors=True)
+    os.makedirs(adir)
+    with open(os.path.join(adir, "a.nelua"), "w") as f:
+        f.write("print('plain a')\n")
+    with open(os.path.join(adir, "a.c.nelua"), "w") as f:
+        f.write("print('aliased a.c')\n")
+    al = []
+    for src in ("a.nelua", "a.c.nelua", "a.nelua"):
+        rc, out, err = vlib.nelua(["--cache-dir", os.path.join(adir, "c"), src], interp=interp, cwd=adir)
+        al.append((src, rc, out.strip(), err.strip()[-120:]))
+    shutil.rmtree(adir, ignore_errors=True)
+    cov["slot_alias_probe"] = [list(x) for x in al]
+    for src, rc, out, err in al:
+        want = "plain a" if src == "a.nelua" else "aliased a.c"
+        if (rc == 0 and out != want) or (src == "a.nelua" and rc != 0):
+            ctx.violation("slot-alias: a.nelua, a.c.nelua, a.nelua in one cache dir", "oracle",
+                          "%s printed %r (rc=%s), expected %r or a compile error" % (src, out, rc, want), detail={"runs": [list(x) for x in al]})
     # 2. corpus + generated histories
     hist = []
     cp = os.path.join(vlib.VERIF, "corpus", ID, "histories.txt")
@@ -658,7 +681,7 @@ def correspond(ctx):
     cov.update({
         "main_theorem": ("C08_cache_fresh : cache_fresh GENPOL (FULL strength over the property's step kinds - source/module/-D/-P/--cflags/--release edits, "
                          "source and compiler switches, -o, --no-cache, --code, interrupted builds - every history, every spacing) is the obligation discharged "
-                         "for the policy scraped from the current tree; documented limit: edits of headers not found in cincdir directories / extra C files (C08_cache_fresh_refuted_header_edit, open known finding)") if full_now else
+                         "for the policy scraped from the current tree; documented limit: edits of headers not found in cincdir directories / extra C files (C08_cache_fresh_all_world_edits_refuted, open known finding)") if full_now else
                         "the scraped policy does NOT satisfy the premises of the full theorem: C08_cache_fresh cannot check (see proof_problems)",
         "full_theorem_premises_hold_for_scraped_policy": bool(full_now),
         "evaluations": n_inv,
